@@ -81,6 +81,21 @@ CHECKS = {
          "DESIGN.md §4 C10",
          "The seeds of every RandomState in the real `mos` process are chosen by the harness (LD_PRELOAD getrandom shim); every project of the enumerated space (statement sequences with repeated undefined names, macros, three import forms, clean/erroneous imported files, listing and VICE symbols) is built under every seed 0..N-1 in a fresh process and directory, and stdout plus every output file must be byte-identical over all seeds. A canary shows how many HashSet orders the N seeds produce; a labelled sampled run without the shim is a tripwire only.",
          "Exhaustive over (project, seed < N), N = 8 quick / 32 thorough; the seed space itself is not enumerable. The shim owns libc getrandom/getentropy."),
+ "C15": ("exploration",
+         "bounded-exhaustive enumeration of a scope-shape program catalogue x every identifier occurrence x new names on the real server, apply-edit-and-reassemble oracle",
+         "DESIGN.md §4 C15",
+         "For every program of the scope-shape catalogue (3 nesting levels x which levels define the name as label/constant with distinct values x use level x 5 path forms x 9 wrappers x 6 import forms over two files, with decoy comments and strings), every identifier occurrence at start/middle/end and two kinds of fresh names: prepareRename, rename on a fresh real server, apply the workspace edit with LSP semantics, re-assemble in-process: no diagnostics, byte-identical output, rename back restores the texts, every edit covers an identifier bound to the renamed symbol, all files covered.",
+         "ASCII texts; new names are capture-free by construction; offered-but-empty renames are counted, not judged."),
+ "C16": ("exploration",
+         "bounded-exhaustive enumeration of the scope-shape catalogue with a value-identifies-definition oracle (assembled bytes) against definition/references/highlight of the real server",
+         "DESIGN.md §4 C16",
+         "Same catalogue as C15. Every definition carries a distinct value and every use is emitted between marker bytes, so the assembled bytes identify the definition the build used: go-to-definition at every occurrence (every path segment) must lead there, find-references of every definition must be exactly the occurrences whose go-to-definition is that definition, highlights are that set restricted to the file.",
+         "Occurrences in code that is never assembled (uninvoked macro, untaken branch) only get the symmetry verdict; definitions with several instances (loop bodies, a file imported twice) are not judged 'missing'."),
+ "C20": ("model_checking",
+         "exhaustive enumeration of client-visible shutdown histories on the real process + explicit-state exploration (spin) of a Promela model of the protocol with outcome conformance",
+         "DESIGN.md §4 C20",
+         "All histories (5 session states x 7 orders of LSP shutdown/exit, DAP disconnect, closing stdin/TCP x gap patterns) are run twice against the real `mos lsp` process over stdio and TCP: exit status 0 within 5 s, debug port free afterwards, no panic. A Promela model of Main/DebugThread/Client is explored exhaustively by spin (all interleavings, no invalid end state); every observed outcome must be in the model's outcome set for that history.",
+         "Timing inside the real process is a finite gap menu, not controlled; the hand-written model is bound to the code by outcome conformance only; 'promptly' = 5 s."),
 }
 
 NOT_YET = {
